@@ -83,17 +83,31 @@ pub fn pair() -> (MockStream, Peer) {
 /// merely because a read or a write was made.  The bits themselves stay set until a call reports
 /// would-block, so that a re-registration (EPOLL_CTL_MOD) finds the condition and fires again,
 /// which is what amiquip's loop relies on when it still has data to write.
-fn fire(r: &SetReadiness, bit: Ready) {
-    let cur = r.readiness();
-    // mio ignores a set_readiness that changes nothing: drop the bit first so that the edge is seen
-    let _ = r.set_readiness(cur - bit);
-    let _ = r.set_readiness(cur | bit);
+fn truth(sh: &Shared) -> Ready {
+    let mut t = Ready::empty();
+    if !sh.inbound.is_empty() || sh.inbound_end != Fault::None {
+        t |= Ready::readable();
+    }
+    if can_write(sh) {
+        t |= Ready::writable();
+    }
+    t
 }
 
-fn clear(r: &SetReadiness, bit: Ready) {
-    let cur = r.readiness();
-    if cur.contains(bit) {
-        let _ = r.set_readiness(cur - bit);
+/// An edge: the condition `bit` has just become true.  mio queues a user-space registration on
+/// every `set_readiness` that leaves a non-empty readiness, so the readiness is emptied first (no
+/// event) and then set to what is true now (one event, reporting every condition that holds - like
+/// an epoll event does).
+fn fire(sh: &Shared, r: &SetReadiness, bit: Ready) {
+    let _ = r.set_readiness(Ready::empty());
+    let _ = r.set_readiness(truth(sh) | bit);
+}
+
+/// A write found the transport unwilling: forget the readiness - unless unread data is pending
+/// (clearing would then raise a readable event; a stale bit only costs a spurious wake-up later).
+fn write_blocked(sh: &Shared, r: &SetReadiness) {
+    if sh.inbound.is_empty() && sh.inbound_end == Fault::None {
+        let _ = r.set_readiness(Ready::empty());
     }
 }
 
@@ -109,10 +123,8 @@ impl io::Read for MockStream {
         sh.last_read_at = Some(Instant::now());
         if sh.inbound.is_empty() {
             let r = match sh.inbound_end {
-                Fault::None => {
-                    clear(&self.readiness, Ready::readable());
-                    Err(io::ErrorKind::WouldBlock.into())
-                }
+                // (the readable bit is left as it is: clearing it would raise a writable event)
+                Fault::None => Err(io::ErrorKind::WouldBlock.into()),
                 Fault::Eof => Ok(0),
                 Fault::Reset => Err(io::Error::new(io::ErrorKind::ConnectionReset, "mock reset")),
             };
@@ -155,7 +167,7 @@ impl io::Write for MockStream {
         }
         let allowed = sh.budget.unwrap_or(usize::MAX).min(sh.max_write.max(1));
         if allowed == 0 || sh.budget == Some(0) {
-            clear(&self.readiness, Ready::writable());
+            write_blocked(&sh, &self.readiness);
             return Err(io::ErrorKind::WouldBlock.into());
         }
         let n = buf.len().min(allowed);
@@ -203,7 +215,7 @@ impl Peer {
         let (m, cv) = &*self.shared;
         let mut sh = m.lock().unwrap();
         sh.inbound.extend(bytes.iter().copied());
-        fire(&self.readiness, Ready::readable());
+        fire(&sh, &self.readiness, Ready::readable());
         cv.notify_all();
     }
 
@@ -213,7 +225,7 @@ impl Peer {
         let mut sh = m.lock().unwrap();
         sh.inbound.extend(bytes.iter().copied());
         sh.inbound_end = f;
-        fire(&self.readiness, Ready::readable());
+        fire(&sh, &self.readiness, Ready::readable());
         cv.notify_all();
     }
 
@@ -222,7 +234,7 @@ impl Peer {
         let (m, cv) = &*self.shared;
         let mut sh = m.lock().unwrap();
         sh.inbound_end = f;
-        fire(&self.readiness, Ready::readable());
+        fire(&sh, &self.readiness, Ready::readable());
         cv.notify_all();
     }
 
@@ -241,8 +253,18 @@ impl Peer {
         let could = can_write(&sh);
         sh.budget = b;
         if !could && can_write(&sh) {
-            fire(&self.readiness, Ready::writable());
+            fire(&sh, &self.readiness, Ready::writable());
         }
+    }
+
+    /// In ONE readiness event: the transport becomes willing (budget `b`) and `bytes` arrive.
+    pub fn set_budget_and_push(&self, b: Option<usize>, bytes: &[u8]) {
+        let (m, cv) = &*self.shared;
+        let mut sh = m.lock().unwrap();
+        sh.budget = b;
+        sh.inbound.extend(bytes.iter().copied());
+        fire(&sh, &self.readiness, Ready::readable() | Ready::writable());
+        cv.notify_all();
     }
 
     pub fn grant(&self, n: usize) {
@@ -251,7 +273,7 @@ impl Peer {
         let could = can_write(&sh);
         sh.budget = Some(sh.budget.unwrap_or(0) + n);
         if !could && can_write(&sh) {
-            fire(&self.readiness, Ready::writable());
+            fire(&sh, &self.readiness, Ready::writable());
         }
     }
 
@@ -260,7 +282,7 @@ impl Peer {
         let mut sh = m.lock().unwrap();
         sh.write_fault = true;
         // an error condition on the socket is reported like readiness (EPOLLERR)
-        fire(&self.readiness, Ready::writable());
+        fire(&sh, &self.readiness, Ready::writable());
     }
 
     /// The k-th write call from now fails (k = 0: the next one).
@@ -268,7 +290,7 @@ impl Peer {
         let (m, _) = &*self.shared;
         let mut sh = m.lock().unwrap();
         sh.write_fault_after = Some(k);
-        fire(&self.readiness, Ready::writable());
+        fire(&sh, &self.readiness, Ready::writable());
     }
 
     /// The k-th write call from now that finds the transport willing fails once with `kind`.
